@@ -196,10 +196,12 @@ func (c *Canary) knockDetector(ctx context.Context) {
 				// one to remove the knock. This will detect portscans
 				// with a longer interval
 
-				// TODO(): make duration configurable
-				if k.Last.Add(time.Second * 60).After(now) {
-					defer knocks.Remove(k)
-				}
+				// a reported group is always removed: this pass only runs after
+				// five seconds without any knock at all, so on a busy sensor a
+				// group can be older than a minute when it is first looked at;
+				// it used to stay in the set then and was reported again on
+				// every later pass
+				defer knocks.Remove(k)
 
 				ports := make([]string, k.Knocks.Count())
 
